@@ -14,6 +14,7 @@
                  (gmtls/conn.go Handshake).  Renegotiation (client only, off by default) is outside.
      O_sysroots  x509.once (system roots)              (x509/cert_pool.go:59)
      O_suites    gmtls.once (default cipher suites)    (gmtls/common.go:970)
+     O_gmcas     gmtls.initonce (getCAs)               (gmtls/gm_support.go:88-104)
    Each row names the race-detector scenario of harness/cmd/c20 that exercises it. *)
 From Coq Require Import List Arith Bool.
 From GmsmVerif Require Import Conc.AccessModel Conc.NestModel.
@@ -43,7 +44,9 @@ Definition L_sysroots := 18.     (* x509.systemRoots, systemRootsErr *)
 Definition L_suites := 19.       (* gmtls.varDefaultCipherSuites *)
 Definition L_cfg_key_elems := 20. (* the ticketKey values behind Config.sessionTicketKeys: handshakes read them outside
                                      Config.mutex ("constant once created": ticketKeys() hands out the slice), nobody writes them *)
-Definition n_loc := 21.
+Definition L_gmcas := 21.        (* package variable gmtls.certCAs: its initialiser (gm_support.go getCAs, initonce) stands after a
+                                    "return nil" and never runs; the translator is flow-insensitive and reports it *)
+Definition n_loc := 22.
 
 (* ---- mutexes ---- *)
 Definition M_cfg := 0.     (* Config.mutex (sync.RWMutex: RLock = Shared, Lock = Excl) *)
@@ -61,7 +64,8 @@ Definition O_cfg := 1.
 Definition O_conn_hs := 2.
 Definition O_sysroots := 3.
 Definition O_suites := 4.
-Definition n_once := 5.
+Definition O_gmcas := 5.
+Definition n_once := 6.
 
 Definition gm_obody (o : nat) : list (nat * nat) :=
   match o with
@@ -72,6 +76,7 @@ Definition gm_obody (o : nat) : list (nat * nat) :=
   | 2 => [(L_conn_hs, 1); (L_conn_in, 1); (L_conn_out, 1)]  (* the handshake: versions, suites, cipher states *)
   | 3 => [(L_sysroots, 1)]
   | 4 => [(L_suites, 1)]
+  | 5 => [(L_gmcas, 1)]
   | _ => []
   end.
 
@@ -113,9 +118,25 @@ Definition cfg_once : list nitem :=
 
 Definition curve_use : list nitem := [NOnce O_curve; rd L_curve; rd L_sm2_tables].
 
-(* c.Handshake() (gmtls/conn.go): handshakeMutex; handshakeErr / handshakeComplete() are looked at; the first caller
-   runs the handshake (O_conn_hs; inside it c.in and c.out are taken - opaque here), everybody else finds it done *)
-Definition conn_Handshake : list nitem := locked Excl M_hs [NOnce O_conn_hs; rd L_conn_hs].
+(* c.Handshake() (gmtls/conn.go:1270-1312): handshakeMutex; handshakeErr / handshakeComplete() are looked at; the first
+   caller takes c.in and runs the handshake, everybody else finds it done.  The handshake is the initialiser of
+   O_conn_hs (it writes the three Conn groups, c.out also outside c.out's mutex - nobody else can hold it then); what
+   it does to state that is NOT the connection's own is written out here, under handshakeMutex and c.in, because
+   other connections and the Config's owner touch that state concurrently:
+     the atomic store to handshakeStatus                                   (handshake_client.go, handshake_server*.go)
+     the first use of the Config and its ticket keys (cfg_once, ticketKeys(), encryptTicket / decryptTicket)
+     the default cipher suites, getCAs, the curve, the system roots, the verification of the peer's chain
+     the client session cache (Get before the hello, Put after the Finished)
+     the records sent (c.out's mutex is taken by writeRecord and sendAlert) *)
+Definition first_handshake_body : list nitem :=
+  atomic_store A_st L_conn_st
+  ++ cfg_once ++ locked Shared M_cfg [rd L_cfg_keys] ++ [rd L_cfg_key_elems; rd L_cfg_fields]
+  ++ [NOnce O_suites; rd L_suites; NOnce O_gmcas; rd L_gmcas] ++ curve_use ++ [NOnce O_sysroots; rd L_sysroots]
+  ++ [rd L_pool; rd L_cert; rd L_x509_tables]
+  ++ locked Excl M_lru [rd L_lru; wr L_lru]
+  ++ locked Excl M_out [rd L_conn_out; wr L_conn_out].
+Definition conn_Handshake : list nitem :=
+  locked Excl M_hs ([NOnce O_conn_hs; rd L_conn_hs] ++ locked Excl M_in first_handshake_body).
 
 Definition code (o : op) : list nitem :=
   match o with
@@ -153,7 +174,7 @@ Definition code (o : op) : list nitem :=
   | lru_put | lru_get => locked Excl M_lru [rd L_lru; wr L_lru]
   (* one Conn: scenarios conn_rwc_gm, conn_rwc_tls *)
   | conn_handshake =>
-      locked Excl M_hs ([NOnce O_conn_hs; rd L_conn_hs] ++ atomic_store A_st L_conn_st) ++ [rd L_conn_const]
+      conn_Handshake ++ [rd L_conn_const]
   | conn_read =>
       conn_Handshake ++ [rd L_conn_const]
       ++ locked Excl M_in ([rd L_conn_hs; rd L_conn_in; wr L_conn_in]
